@@ -87,13 +87,30 @@ func VerifC05ScopesShards3() { c05Scopes(deriveCfg{depth: 2, maxStr: 1, shards: 
 func VerifC05ScopesTwoTags() { c05Scopes(deriveCfg{depth: 2, maxStr: 1, shards: 1, twoTagMap: true}) }
 
 // VerifC05TaggedRegroup: Tagged is idempotent and independent of order and grouping.
-func VerifC05TaggedRegroup() {
+func VerifC05TaggedRegroup()        { c05Regroup(1) }
+func VerifC05TaggedRegroupShards2() { c05Regroup(2) }
+
+func c05Regroup(shards uint) {
 	rec := &vReporter{}
-	root := newRootScope(ScopeOptions{Reporter: rec, OmitCardinalityMetrics: true, registryShardCount: 1}, 0)
+	rk, rv := strChoice("rk", 1), strChoice("rv", 1)
+	rootTags := map[string]string{}
+	if verifrt.Choose("root.tagged", 2) == 1 {
+		rootTags[rk] = rv
+	}
+	root := newRootScope(ScopeOptions{Reporter: rec, Tags: rootTags, OmitCardinalityMetrics: true, registryShardCount: shards}, 0)
+	// re-tagging the root with nothing / with its own tags is the root itself
+	verifrt.Assert("c05.root-tagged-nil-is-root", root.Tagged(nil).(*scope) == root)
+	verifrt.Assert("c05.root-tagged-empty-is-root", root.Tagged(map[string]string{}).(*scope) == root)
+	own := map[string]string{}
+	for k, v := range rootTags {
+		own[k] = v
+	}
+	verifrt.Assert("c05.root-tagged-own-tags-is-root", root.Tagged(own).(*scope) == root)
+	verifrt.Assert("c05.root-metric-shared-with-noop-retag", root.Counter("c") == root.Tagged(nil).Counter("c"))
 	k1, v1 := strChoice("k1", 1), strChoice("v1", 1)
 	k2, v2 := strChoice("k2", 1), strChoice("v2", 1)
 	verifrt.Assume(verifrt.Not(verifrt.EqStr(k1, k2)))
-	verifrt.Class("a-string-contains-a-key-delimiter(,=+)", verifrt.Or(verifrt.Or(hasDelim(k1), hasDelim(v1)), verifrt.Or(hasDelim(k2), hasDelim(v2))))
+	verifrt.Class("a-string-contains-a-key-delimiter(,=+)", verifrt.Or(verifrt.Or(verifrt.Or(hasDelim(k1), hasDelim(v1)), verifrt.Or(hasDelim(k2), hasDelim(v2))), verifrt.Or(hasDelim(rk), hasDelim(rv))))
 	a := root.Tagged(map[string]string{k1: v1}).Tagged(map[string]string{k2: v2})
 	b := root.Tagged(map[string]string{k2: v2}).Tagged(map[string]string{k1: v1})
 	c := root.Tagged(map[string]string{k1: v1, k2: v2})
